@@ -453,11 +453,16 @@ fn gen_numbers(r: &mut Rng) -> (Vec<f64>, &'static str) {
 
 pub fn run_c15(ctx: &Ctx, sink: &mut Sink) {
     let n = ctx.budget(40_000, 2_000_000);
-    let sess = Sess::new();
+    let mut sess = Sess::new();
     let aggs = ["sum", "prod", "avg", "min", "max", "median"];
     for i in 0..n {
         if !ctx.mine(i) {
             continue;
+        }
+        // a fresh heap + environment for two cases out of three, on the same thread: whatever an aggregate remembers
+        // between calls must not outlive the heap its values live in
+        if (i / ctx.shard_n) % 3 != 0 {
+            sess = Sess::new();
         }
         let mut r = Rng::derive(ctx.seed, "c15", i);
         let (xs, regime) = gen_numbers(&mut r);
@@ -510,6 +515,25 @@ pub fn run_c15(ctx: &Ctx, sink: &mut Sink) {
             ps.push(json!([p, enc(&o), enc(&os)]));
         }
         rec.insert("percentiles".into(), json!(ps));
+        // the same small program on a brand-new heap (as an embedding host evaluates one template with new data each time):
+        // the list sits in the same heap slot as the previous case's list did, and every aggregate must still answer for
+        // THIS list - identically to the session above
+        {
+            let fresh = Sess::new();
+            fresh.bind("L", mk_value(&fresh.heap, &l));
+            let prog = "[percentile(L, 50), percentile(L, 0), percentile(L, 100), median(L), min(L), max(L), sum(L), prod(L), avg(L)]";
+            let got = fresh.rout(&fresh.eval(prog));
+            let want = sess.rout(&sess.eval(prog));
+            sink.count("fresh_heap_template_runs", 1);
+            let same = match (&got, &want) {
+                (ROut::Ok(a), ROut::Ok(b)) => a.show() == b.show(),
+                (ROut::Err(_), ROut::Err(_)) => true,
+                _ => false,
+            };
+            if !same {
+                sink.viol("aggregate-depends-on-earlier-evaluation", "an aggregate over a list on a fresh heap differs from the same call in another session (it remembered a list of an earlier evaluation)", json!({"list": l.show(), "program": prog, "fresh_heap": got.show(), "other_session": want.show()}));
+            }
+        }
         if sink.want_sample() && xs.len() > 3 && xs.len() < 9 {
             sink.sample(json!({"list": l.show(), "regime": regime}));
         }
@@ -528,9 +552,33 @@ pub fn run_c06(ctx: &Ctx, sink: &mut Sink) {
         }
         let mut r = Rng::derive(ctx.seed, "c06", i);
         let depth = r.below(6);
-        let v = gens::random_data(&mut r, depth, true);
+        let v0 = gens::random_data(&mut r, depth, true);
         let sess = Sess::new();
-        let val = mk_value(&sess.heap, &v);
+        // one case in five shares sub-structure: the same heap list / record / string is reached several times inside the
+        // value (values built by a program are DAGs, not trees)
+        let (v, val) = if i % 5 == 3 {
+            let shared = mk_value(&sess.heap, &v0);
+            sess.bind("SH", shared);
+            let built = sess.eval("[SH, SH, {p: SH, q: [SH, [SH]]}, SH]");
+            match built {
+                Out::Ok(b) => {
+                    let tree = RVal::List(vec![
+                        v0.clone(),
+                        v0.clone(),
+                        RVal::Rec(vec![("p".to_string(), v0.clone()), ("q".to_string(), RVal::List(vec![v0.clone(), RVal::List(vec![v0.clone()])]))]),
+                        v0.clone(),
+                    ]);
+                    (tree, b)
+                }
+                _ => {
+                    let val = mk_value(&sess.heap, &v0);
+                    (v0.clone(), val)
+                }
+            }
+        } else {
+            let val = mk_value(&sess.heap, &v0);
+            (v0.clone(), val)
+        };
         let nontrivial = has_interesting_leaf(&v);
         sink.case(&format!("c06|{}", v.show()), nontrivial);
         let text = {
